@@ -122,6 +122,10 @@ func init() {
 		}
 		_ = ion.Unmarshal(b, new(c06Struct))
 		runtime.ReadMemStats(&m1)
-		return fmt.Sprintf("ok %d", m1.TotalAlloc-m0.TotalAlloc)
+		grow := uint64(0)
+		if m1.HeapSys > m0.HeapSys {
+			grow = m1.HeapSys - m0.HeapSys
+		}
+		return fmt.Sprintf("ok %d %d", grow, m1.TotalAlloc-m0.TotalAlloc)
 	})
 }
